@@ -38,23 +38,27 @@ def replay(system, init, hist, validate=True):
     return impl, model
 
 
-def bfs(system, init, max_depth, max_violations=20):
+def bfs(system, init, max_depth, max_violations=20, prefix=()):
     """Explore every history of <= max_depth operations from `init`, deduplicating by system.key.
     Every transition out of every distinct state is executed and compared (so the exploration is
     complete for the reachable state graph up to that depth; it stops early when the graph is
     saturated, i.e. a whole level adds no new state)."""
     res = Result()
+    prefix = list(prefix)
     impl, model = system.fresh(init)
+    for op in prefix:
+        if system.step(impl, model, op) is not None:
+            return res      # a violating prefix is reported by the shard that owns the shorter history
     inv = getattr(system, 'invariant', None)
-    if inv:
+    if inv and not prefix:
         bad = inv(impl, model)
         if bad is not None:
             res.violations.append(([], None, bad[0], bad[1]))
             return res
     seen = {system.key(impl, model)}
     res.states = 1
-    frontier = [[]]
-    for depth in range(1, max_depth + 1):
+    frontier = [prefix]
+    for depth in range(len(prefix) + 1, max_depth + 1):
         nxt = []
         for hist in frontier:
             impl, model = replay(system, init, hist)
@@ -108,4 +112,86 @@ def sequences(system, init, depth, max_violations=20):
                 continue
             stack.append(hist + [op])
     res.max_depth = depth
+    return res
+
+
+# ---------------------------------------------------------------------------------------------
+# level-synchronous parallel BFS with global state deduplication
+
+def _expand(args):
+    """Worker: expand a chunk of states (histories) of one initial descriptor."""
+    import importlib
+    modname, init, hists = args
+    system = importlib.import_module(modname).system()
+    init = tuple(init) if isinstance(init, list) else init
+    inv = getattr(system, 'invariant', None)
+    out = []          # (hist index, op, key)
+    viol = []
+    transitions = 0
+    for hi, hist in enumerate(hists):
+        impl, model = replay(system, init, hist)
+        k0 = system.key(impl, model)
+        ops = system.enabled(model)
+        clean = True
+        for op in ops:
+            if not clean:
+                impl, model = replay(system, init, hist)
+            bad = system.step(impl, model, op)
+            transitions += 1
+            if bad is None and inv:
+                bad = inv(impl, model)
+            if bad is not None:
+                viol.append((list(hist), op, bad[0], bad[1]))
+                clean = False
+                continue
+            k = system.key(impl, model)
+            # an operation that leaves the canonical state unchanged lets the same live object be reused
+            clean = (k == k0)
+            if not clean:
+                out.append((hi, op, k))
+    return out, viol, transitions
+
+
+def parallel_bfs(modname, init, max_depth, pool, nchunks=64, max_violations=40):
+    """BFS over all histories of <= max_depth operations from `init`; the parent owns the `seen` set
+    (global deduplication by canonical key), workers expand the frontier of each level."""
+    import importlib
+    res = Result()
+    system = importlib.import_module(modname).system()
+    impl, model = system.fresh(init)
+    inv = getattr(system, 'invariant', None)
+    if inv:
+        bad = inv(impl, model)
+        if bad is not None:
+            res.violations.append(([], None, bad[0], bad[1]))
+            return res
+    seen = {system.key(impl, model)}
+    frontier = [[]]
+    for depth in range(1, max_depth + 1):
+        n = max(1, min(nchunks, len(frontier)))
+        chunks = [frontier[i::n] for i in range(n)]
+        if pool is None:
+            results = [_expand((modname, init, c)) for c in chunks]
+        else:
+            results = list(pool.map(_expand, [(modname, init, c) for c in chunks]))
+        nxt = []
+        for c, (out, viol, tr) in zip(chunks, results):
+            res.transitions += tr
+            res.traces += len(c)
+            for v in viol:
+                if len(res.violations) < max_violations:
+                    res.violations.append(v)
+            for hi, op, k in out:
+                if k not in seen:
+                    seen.add(k)
+                    nxt.append(c[hi] + [op])
+        res.depth_hist[depth] = len(nxt)
+        res.states = len(seen)
+        if len(res.samples) < 3 and nxt:
+            res.samples.append({'init': list(init), 'history': [list(o) for o in nxt[len(nxt) // 2]]})
+        if not nxt:
+            res.saturated = True
+            break
+        res.max_depth = depth
+        frontier = nxt
     return res
